@@ -53,6 +53,8 @@ def gen_cases(tier, rng):
             for exact in (0, 1):
                 base.append((tc.case([s], exact=exact, pol=pol), "boundary"))
                 base.append((tc.case([s], exact=exact, pol=pol, bom=0), "boundary"))
+    for line in tc.crlf_run_cover():
+        base.append((line, "boundary"))
     for line in tc.random_soup(rng, 400 if tier == "quick" else 20000):
         base.append((line, "soup"))
     cases = []
